@@ -923,6 +923,11 @@ func init() {
 				c.EncodeDecodeAgreement("C10", s, s.AttState, map[string]bool{"SourceEpoch": true, "TargetEpoch": true})
 				c.EncodeDecodeAgreement("C10", s, s.PropState, map[string]bool{"Slot": true})
 				c.WhoWrites("C10")
+				// an imported record protects only if the rules compare requests with it: the watermark guards of both rules
+				c.WatermarkGuards("C10", s, "att")
+				c.WatermarkGuards("C10", s, "prop")
+				c.StateStoreDiscipline("C10", s, "att")
+				c.StateStoreDiscipline("C10", s, "prop")
 				c.BadgerBufferDiscipline("C11") // the import compares against records read through FetchAll
 			}
 		},
